@@ -329,9 +329,12 @@ class Graph:
         self.inits = sorted({key(i["t"]) for i in r.inits})
         self.init_obs = {key(i["t"]): i.get("o") for i in r.inits}
 
-    def cover(self, seed=0, max_len=40, max_paths=None, prefer=None):
+    def cover(self, seed=0, max_len=40, max_paths=None, prefer=None, tail=0):
         """Paths (lists of edge indices) from an initial state that together traverse every edge
-        (or as many as max_paths allows).  Shortest prefix to an uncovered edge, then greedy extension."""
+        (or as many as max_paths allows).  Shortest prefix to an uncovered edge, then greedy extension.
+        tail > 0: when the extension runs out of uncovered edges the path goes on for up to `tail` more random
+        steps, so that what follows the covered edge is observed too (an action without effect in the model,
+        a self-loop, shows its effect on the implementation only in what comes after it)."""
         rnd = random.Random(seed)
         parent = {}
         dq = collections.deque()
@@ -369,6 +372,14 @@ class Graph:
             while len(path) < max_len:
                 cand = [x for x in self.succ.get(n, ()) if x in uncovered]
                 if not cand:
+                    break
+                x = rnd.choice(cand)
+                path.append(x)
+                uncovered.discard(x)
+                n = self.edges[x][2]
+            for _ in range(tail):
+                cand = [x for x in self.succ.get(n, ()) if self.edges[x][2] != n] or list(self.succ.get(n, ()))
+                if not cand or len(path) >= max_len + tail:
                     break
                 x = rnd.choice(cand)
                 path.append(x)
